@@ -497,7 +497,7 @@ class McaMachine(Machine):
         "variables given, fault) tuples + chain length + integrator; non-trivial = a routine ran under >= 2 schedules or with a fired fault"
     )
     real_components = ["mxlpy.mca.variable_elasticities/parameter_elasticities/response_coefficients and worker", "mxlpy.mc.response_coefficients", "mxlpy.parallel.parallelise (both branches)", "mxlpy.scan._steady_state_worker, Simulator, Scipy steady-state loop in scipy runs"]
-    stub_components = ["pebble.ProcessPool -> SimPool", "integrator -> ExactLinear (kinetic orders 1) in runs that say so; Faulty wrapper for the failing perturbed steady state"]
+    stub_components = ["pebble.ProcessPool -> SimPool", "integrator -> ExactLinear (kinetic orders 1) in runs that say so; Faulty wrapper for the failing perturbed steady state", "Model.get_fluxes -> interrupt seam (fnlib.Tripper) in the elasticity calls that say so"]
     assumptions = ["analytic sensitivities of the chain: x_i* = (k0/k_i)^(1/g_i), flux k0", "scipy runs judged at 3e-2 (difference quotient of a 1e-6-accurate state over 2e-4*k), exact runs at 1e-5"]
 
     def run_seed(self, seed: int, tier: str, known: list[list[str]]) -> RunResult:
